@@ -6,6 +6,13 @@ from .ir import callee_of
 from .interval import INF
 from rules.tables import lib
 
+def _is_existing_length(t):
+    """the term is len(x) (possibly through value-preserving casts) of some collection"""
+    while isinstance(t, tuple) and t and t[0] == "cast" and len(t) == 4 and sym._uwiden(t[2], t[3]):
+        t = t[1]
+    return isinstance(t, tuple) and bool(t) and (t[0] == "len" or (t[0] == "call" and t[1].endswith("::len") and len(t[2]) == 1))
+
+
 ALLOC_CAP = 1 << 24      # 16 MiB: every allocation size derived from 8/16-bit wire fields stays far below
 
 DATE_DELTA_MS = 8_000_000_000_000_000      # |delta| that keeps a date in [1900, 2100] inside chrono's ±262 000-year range
@@ -210,6 +217,10 @@ class PanicChecker:
                     self.counts["alloc"] += 1
                     sz = args[-1] if name != "alloc::vec::from_elem" else args[1]
                     r = an.range_of(st, sz)
+                    if r[1] > ALLOC_CAP and _is_existing_length(sz):
+                        # sized after a collection that already exists (`Vec::with_capacity(xs.len())`): no more than is already held
+                        self.ob(path, True, "allocation sized by the length of an existing collection", where, "alloc:%s" % site, rule="R-ALLOC")
+                        return
                     self.ob(path, r[1] <= ALLOC_CAP, "allocation size in [%s, %s] must be bounded by a constant (cap %d elements)" % (r[0], r[1], ALLOC_CAP),
                             where, "alloc:%s" % site, rule="R-ALLOC")
 
